@@ -18,6 +18,11 @@ import (
 
 // line:  c11 <specs> <verify-matrix> <start index> <ops>
 // output: <number of chains> <chains sorted, ';' between chains, '>' between certificate indices>
+//
+// line:  c11 seq <specs> <verify-matrix> <history>      a HISTORY on ONE graph: insertions and walks interleaved
+//   history tokens: a<i> AddCert, r<i> AddRoot, s<i> WalkChains(cert i), c<i>:<n> WalkChainsAsync(cert i, ChannelSize n)
+// output: per token, joined by '|': the canonical dump of the graph after the token (c10 Canon), preceded for a walk
+//   by `W=<chains> `. Walks must not change the graph; the model's walk is a pure function of the graph.
 
 const maxLen = 9 // documented maximum chain length (maxIntermediateCount)
 
@@ -124,8 +129,192 @@ func Reference(u *c10.Universe, g *c10.G, start int) [][]int {
 	return out
 }
 
+// HTok is one token of a history.
+type HTok struct {
+	Kind byte // 'a' AddCert, 'r' AddRoot, 's' WalkChains, 'c' WalkChainsAsync
+	I    int
+	Size int // channel size ('c')
+}
+
+func (t HTok) String() string {
+	if t.Kind == 'c' {
+		return fmt.Sprintf("c%d:%d", t.I, t.Size)
+	}
+	return fmt.Sprintf("%c%d", t.Kind, t.I)
+}
+
+func parseHistory(tok string) []HTok {
+	var out []HTok
+	if tok == "-" {
+		return out
+	}
+	for _, s := range strings.Split(tok, ",") {
+		t := HTok{Kind: s[0]}
+		arg := s[1:]
+		if t.Kind == 'c' {
+			p := strings.SplitN(arg, ":", 2)
+			if len(p) != 2 {
+				panic("bad history token " + s)
+			}
+			arg = p[0]
+			t.Size, _ = strconv.Atoi(p[1])
+		}
+		i, err := strconv.Atoi(arg)
+		if err != nil || !strings.ContainsRune("arsc", rune(t.Kind)) {
+			panic("bad history token " + s)
+		}
+		t.I = i
+		out = append(out, t)
+	}
+	return out
+}
+
+func formatHistory(h []HTok) string {
+	if len(h) == 0 {
+		return "-"
+	}
+	ss := make([]string, len(h))
+	for i, t := range h {
+		ss[i] = t.String()
+	}
+	return strings.Join(ss, ",")
+}
+
+// execSeq: a history of insertions and walks on ONE real graph. After every token the whole internal state is
+// dumped (c10's canonical dump). T3: a walk leaves the dump (and the public observers) exactly as they were;
+// every walk returns the permitted paths of the CURRENT graph (independent enumeration), hence walking a
+// certificate again -- immediately or after other walks -- returns the same set.
+func execSeq(line string, f []string) zv.Out {
+	u := c10.Load(f[2])
+	if p := u.SelfCheck(); p != "" {
+		return zv.Out{Go: "harness-error", Viol: p}
+	}
+	hist := parseHistory(f[4])
+	viol := ""
+	fail := func(format string, a ...any) {
+		if viol == "" {
+			viol = fmt.Sprintf(format, a...)
+		}
+	}
+	if vm := u.VerifyMatrix(); vm != f[3] {
+		fail("signature relation differs from construction: %s", vm)
+	}
+	h := uint64(14695981039346656037)
+	for i := 0; i < len(line); i++ {
+		h = (h ^ uint64(line[i])) * 1099511628211
+	}
+	r := zv.NewRng(h)
+	rg := verifier.NewGraph()
+	var ops []c10.Op
+	g := c10.Translate(u, rg.ZVDump())
+	dump := g.Canon()
+	var parts []string
+	tags := map[string]bool{}
+	lastWalk := map[int]string{} // start -> chains of the last walk from it since the last insertion
+	nWalks := 0
+	for k, t := range hist {
+		c := u.Certs[t.I]
+		switch t.Kind {
+		case 'a', 'r':
+			if t.Kind == 'r' {
+				rg.AddRoot(c)
+			} else {
+				rg.AddCert(c)
+			}
+			ops = append(ops, c10.Op{Root: t.Kind == 'r', I: t.I})
+			g = c10.Translate(u, rg.ZVDump())
+			dump = g.Canon()
+			if p := c10.CheckInvariant(u, ops, g); p != "" {
+				fail("graph invariant (C10) after token %d %s: %s", k, t, p)
+			}
+			lastWalk = map[int]string{}
+			if nWalks > 0 {
+				tags["insert-between-walks"] = true
+			}
+			parts = append(parts, dump)
+		default:
+			nWalks++
+			inGraph := g.Edge(t.I) != nil
+			nEdges, nNodes := len(rg.Edges()), len(rg.Nodes())
+			var chains []x509.CertificateChain
+			if t.Kind == 's' {
+				chains = rg.WalkChains(c)
+			} else {
+				ch := rg.WalkChainsAsync(c, verifier.WalkOptions{ChannelSize: t.Size})
+				for x := range ch {
+					chains = append(chains, x)
+					switch r.Intn(4) {
+					case 0:
+						runtime.Gosched()
+					case 1:
+						time.Sleep(time.Duration(r.Intn(30)) * time.Microsecond)
+					}
+				}
+				if _, open := <-ch; open {
+					fail("token %d %s: channel not closed after the range loop ended", k, t)
+				}
+			}
+			ci, p := ChainsToIdx(u, chains)
+			if p != "" {
+				fail("token %d %s: %s", k, t, p)
+			}
+			got := Canon(ci)
+			what := "in-graph"
+			if !inGraph {
+				what = "out-of-graph"
+			}
+			if s := u.Specs[t.I]; s.BC && s.CA {
+				what += " CA"
+			} else {
+				what += " non-CA"
+			}
+			tags["walk-"+what] = true
+			// T3: exactly the permitted root-terminated paths of the graph as it was before the walk
+			if want := Canon(Reference(u, g, t.I)); got != want {
+				fail("token %d %s (%s start): walk returned %s but the permitted root-terminated paths are %s", k, t, what, got, want)
+			}
+			for _, x := range ci {
+				if len(x) > maxLen {
+					fail("token %d %s: chain longer than %d", k, t, maxLen)
+				}
+			}
+			if prev, ok := lastWalk[t.I]; ok {
+				tags["walk-repeated"] = true
+				if prev != got {
+					fail("token %d %s (%s start): repeating the walk on the unchanged graph returned %s, before it returned %s", k, t, what, got, prev)
+				}
+			}
+			lastWalk[t.I] = got
+			// T3: the walk did not change the graph
+			g2 := c10.Translate(u, rg.ZVDump())
+			after := g2.Canon()
+			if after != dump {
+				fail("token %d %s (%s start): the walk changed the graph: before %s, after %s", k, t, what, dump, after)
+			}
+			if len(rg.Edges()) != nEdges || len(rg.Nodes()) != nNodes || (rg.FindEdge(c.FingerprintSHA256) != nil) != inGraph {
+				fail("token %d %s (%s start): Edges()/Nodes()/FindEdge changed by the walk", k, t, what)
+			}
+			g, dump = g2, after
+			parts = append(parts, "W="+got+" "+dump)
+		}
+	}
+	tl := []string{"seq", fmt.Sprintf("walks=%d", min(nWalks, 12))}
+	for t := range tags {
+		tl = append(tl, t)
+	}
+	sort.Strings(tl)
+	out := strings.Join(parts, "|")
+	if out == "" {
+		out = "-"
+	}
+	return zv.Out{Go: out, Viol: viol, Tags: tl}
+}
+
 func exec(line string) zv.Out {
 	f := strings.Fields(line)
+	if len(f) == 5 && f[1] == "seq" {
+		return execSeq(line, f)
+	}
 	if len(f) != 5 {
 		panic("bad c11 line")
 	}
@@ -242,6 +431,152 @@ func emit(g *zv.Gen, cs []c10.CertSpec, ops []c10.Op, starts []int) {
 	}
 }
 
+// emitSeq emits one history line.
+func emitSeq(g *zv.Gen, cs []c10.CertSpec, h []HTok) {
+	for i := range cs {
+		cs[i].Serial = i + 1
+	}
+	tok := c10.FormatSpecs(cs)
+	vm := c10.Load(tok).VerifyMatrix()
+	g.Emitf("c11 seq %s %s %s", tok, vm, formatHistory(h))
+}
+
+var chanSizes = []int{0, 1, 2, 4, 64}
+
+// walkTok: a walk from certificate i, synchronous or asynchronous with one of the channel sizes.
+func walkTok(r *zv.Rng, i int) HTok {
+	if r.Chance(45) {
+		return HTok{Kind: 's', I: i}
+	}
+	return HTok{Kind: 'c', I: i, Size: chanSizes[r.Intn(len(chanSizes))]}
+}
+
+func selfSigned(c c10.CertSpec) bool { return c.Subj == c.Iss && c.Key == c.Sign }
+
+// genSeq: histories of walks on ONE graph.
+func genSeq(g *zv.Gen) {
+	r := g.Rng
+	// (1) systematic: every structure x every certificate k left out of the graph (and none): insert the others, walk
+	// from EVERY certificate of the universe (k included: an out-of-graph start), walk from k again, then from every
+	// certificate again: the second round must return what the first returned, the graph must never change
+	var structs [][]c10.CertSpec
+	structs = append(structs, c10.Handcrafted()...)
+	structs = append(structs, c10.Twins()...)
+	for f := 1; f < c10.NFlav; f++ {
+		structs = append(structs, c10.Unauthorised(f)...)
+	}
+	structs = append(structs, lineChain(4), lineChain(9), ring(2), ring(3))
+	// the peer-presented cross certificate: leaf <- I <- R1 (root), second root R2, cross certificate I-by-R2
+	structs = append(structs, []c10.CertSpec{def(0, 0, 0, 0), def(1, 1, 1, 1), def(2, 2, 0, 0), def(2, 2, 1, 1), def(3, 3, 2, 2), def(4, 4, 3, 3)})
+	for _, cs0 := range structs {
+		n := len(cs0)
+		for k := -1; k < n; k++ {
+			cs := append([]c10.CertSpec{}, cs0...)
+			var h []HTok
+			for i := range cs {
+				if i == k {
+					continue
+				}
+				kind := byte('a')
+				if selfSigned(cs[i]) {
+					kind = 'r'
+				}
+				h = append(h, HTok{Kind: kind, I: i})
+			}
+			if k >= 0 {
+				h = append(h, walkTok(r, k))
+			}
+			for i := 0; i < n; i++ {
+				h = append(h, walkTok(r, i))
+			}
+			if k >= 0 {
+				h = append(h, walkTok(r, k), walkTok(r, k))
+			}
+			for i := n - 1; i >= 0; i-- {
+				h = append(h, HTok{Kind: 's', I: i})
+			}
+			if k >= 0 {
+				// finally the certificate is really inserted: the walks now see it
+				h = append(h, HTok{Kind: 'a', I: k})
+				for i := 0; i < n; i++ {
+					h = append(h, walkTok(r, i))
+				}
+			}
+			emitSeq(g, cs, h)
+		}
+	}
+	// (2) random graphs (path-length limits, non-CA, authority flavours), part of the certificates left out; random
+	// walks biased towards out-of-graph starts and repetitions, insertions in between
+	hs := c10.Handcrafted()
+	nr := g.N(1200, 40000)
+	for i := 0; i < nr; i++ {
+		var cs []c10.CertSpec
+		if i%8 == 0 {
+			cs = append(cs, hs[r.Intn(len(hs))]...)
+			cs = append(cs, c10.RandomUniverse(r, 2+r.Intn(3))...)
+		} else {
+			cs = c10.RandomUniverse(r, 4+r.Intn(6))
+		}
+		if r.Chance(60) {
+			mutateConstraints(r, cs)
+		}
+		if r.Chance(40) {
+			c10.Flavour(r, cs, 30)
+		}
+		var h []HTok
+		var in, out []int
+		pOut := 10 + r.Intn(40)
+		for j := range cs {
+			if r.Chance(pOut) {
+				out = append(out, j)
+				continue
+			}
+			in = append(in, j)
+			kind := byte('a')
+			if (selfSigned(cs[j]) && r.Chance(70)) || r.Chance(8) {
+				kind = 'r'
+			}
+			h = append(h, HTok{Kind: kind, I: j})
+		}
+		for j := len(h) - 1; j > 0; j-- {
+			x := r.Intn(j + 1)
+			h[j], h[x] = h[x], h[j]
+		}
+		var walked []int
+		for w, nw := 0, 4+r.Intn(9); w < nw; w++ {
+			var st int
+			switch x := r.Intn(100); {
+			case x < 30 && len(walked) > 0:
+				st = walked[r.Intn(len(walked))]
+			case x < 65 && len(out) > 0:
+				st = out[r.Intn(len(out))]
+			case x < 90 && len(in) > 0:
+				st = in[r.Intn(len(in))]
+			default:
+				st = r.Intn(len(cs))
+			}
+			h = append(h, walkTok(r, st))
+			walked = append(walked, st)
+			if r.Chance(12) {
+				// an insertion between walks: a left-out certificate, or any certificate again (possibly as root)
+				j := r.Intn(len(cs))
+				if len(out) > 0 && r.Chance(60) {
+					x := r.Intn(len(out))
+					j = out[x]
+					out = append(out[:x], out[x+1:]...)
+					in = append(in, j)
+				}
+				kind := byte('a')
+				if r.Chance(25) {
+					kind = 'r'
+				}
+				h = append(h, HTok{Kind: kind, I: j})
+			}
+		}
+		emitSeq(g, cs, h)
+	}
+}
+
 func allStarts(n int) []int {
 	s := make([]int, n)
 	for i := range s {
@@ -269,6 +604,7 @@ func mutateConstraints(r *zv.Rng, cs []c10.CertSpec) {
 
 func gen(g *zv.Gen) {
 	r := g.Rng
+	genSeq(g)
 	// depth-limit boundaries: line chains of 7..11 certificates, root at the far end, start anywhere;
 	// with and without the leaf being in the graph
 	for n := 7; n <= 11; n++ {
@@ -364,5 +700,5 @@ func gen(g *zv.Gen) {
 
 func init() {
 	zv.Register(&zv.Prop{ID: "C11", Topic: "c11", Gen: gen, Exec: exec,
-		Rule: "real graphs of real ECDSA certificates: line chains of 7..11 certificates (depth-limit boundary 8/9/10, second root in the middle, path-length limits), cross-sign rings of 2..4 CAs, the C10 structures and random graphs with pathLen 0/1/2, non-CA and no-basic-constraints certificates, random roots; every certificate of the universe as start (in or out of the graph); a case is one (graph, start); T3 = independent path enumeration over the dumped edge set + WalkChainsAsync with channel sizes 1,2,4,64 and randomised consumer pacing"})
+		Rule: "real graphs of real ECDSA certificates: line chains of 7..11 certificates (depth-limit boundary 8/9/10, second root in the middle, path-length limits), cross-sign rings of 2..4 CAs, the C10 structures and random graphs with pathLen 0/1/2, non-CA and no-basic-constraints certificates, random roots; every certificate of the universe as start (in or out of the graph); a case is one (graph, start); T3 = independent path enumeration over the dumped edge set + WalkChainsAsync with channel sizes 1,2,4,64 and randomised consumer pacing. PLUS histories on ONE graph (`c11 seq`): insertions, WalkChains and WalkChainsAsync (channel sizes 0,1,2,4,64) interleaved; systematic: every structure (C10 handcrafted, twins, the 18 unauthorised-issuer universes, lines, rings, peer-presented cross certificate) x every certificate left out in turn: walk from every certificate, from the left-out one again, from every certificate again, insert it, walk again; random: 1200/40000 random graphs with path-length limits, non-CA certificates and authority flavours, 4..12 walks biased to out-of-graph starts and repetitions, insertions between walks; the canonical dump of the whole graph state (c10) is taken after EVERY token and compared with the model; T3 = a walk leaves dump, Edges(), Nodes(), FindEdge unchanged, returns the permitted paths of the current graph, and returns the same set when repeated"})
 }
